@@ -30,8 +30,9 @@ from pathlib import Path
 import numpy as np
 
 ROOT = Path(__file__).resolve().parent.parent
-EVIDENCE = ROOT / "evidence"
-REPLAYS = ROOT / "replays"
+_OUT = Path(os.environ["LWVERIF_OUT"]) if os.environ.get("LWVERIF_OUT") else ROOT
+EVIDENCE = _OUT / "evidence"       # LWVERIF_OUT redirects evidence/replays (mutant validation only)
+REPLAYS = _OUT / "replays"
 KNOWN = ROOT / "known_findings.json"
 
 EXIT_OK, EXIT_VIOLATION, EXIT_INCONCLUSIVE = 0, 1, 2
@@ -250,7 +251,7 @@ def main_run(prop: str, tier: str, seed: int, replay: str | None = None) -> int:
         inconclusive.append("no cases evaluated")
 
     wall = time.monotonic() - t0
-    EVIDENCE.mkdir(exist_ok=True)
+    EVIDENCE.mkdir(parents=True, exist_ok=True)
     ev = {
         "property_id": prop, "tier": tier, "seed": seed,
         "level": getattr(mod, "LEVEL", "exploration"),
@@ -282,7 +283,7 @@ def main_run(prop: str, tier: str, seed: int, replay: str | None = None) -> int:
     for m in seen_known:
         print(f"KNOWN-FINDING: property={prop} {known_mech[m]['description']}")
     if new_viol:
-        REPLAYS.mkdir(exist_ok=True)
+        REPLAYS.mkdir(parents=True, exist_ok=True)
         by_mech: dict = {}
         for v in new_viol:
             by_mech.setdefault(v["mechanism"], []).append(v)
